@@ -730,6 +730,15 @@ class Interp:
                     env.pop(t.id, None)
                 else:
                     raise Unsupported('del of non-name')
+        elif isinstance(st, ast.Import):
+            # `import m [as n]` inside a function: the module object is given by the contract (`modules` clause), never loaded
+            mods = self.loops.get('modules', {})
+            for al in st.names:
+                if al.name not in mods:
+                    raise Unsupported('import of %s without a contract module' % al.name)
+                if al.asname is None and '.' in al.name:
+                    raise Unsupported('import of the dotted name %s' % al.name)
+                env[al.asname or al.name] = mods[al.name]
         elif isinstance(st, ast.FunctionDef):
             # a closure: the function text plus the defining environment (captured by reference)
             if st.decorator_list:
@@ -747,7 +756,23 @@ class Interp:
 
     def exec_try(self, st, env):
         if st.finalbody:
-            raise Unsupported('try/finally')
+            # try/.../finally: the finally suite runs on every exit of the python program (normal end, return, break, continue,
+            # exception); an exit of its own (raise / return) supersedes the pending one.  Engine-level ends of a path (PathEnd,
+            # Unsupported) are not exits of the program and pass through.
+            try:
+                self.exec_try_core(st, env)
+            except (PyRaise, _Return, _Continue, _Break):
+                self.exec_block(st.finalbody, env)
+                raise
+            self.exec_block(st.finalbody, env)
+            return
+        self.exec_try_core(st, env)
+
+    def exec_try_core(self, st, env):
+        if not st.handlers:
+            self.exec_block(st.body, env)
+            self.exec_block(st.orelse, env)
+            return
         try:
             self.exec_block(st.body, env)
         except PyRaise as r:
@@ -1050,6 +1075,11 @@ class Interp:
                 return NONE
             if isinstance(c, str):
                 return StrV(c)
+            if isinstance(c, bytes):
+                # a bytes literal: an opaque object that carries its concrete value (`.value`); no operation is defined on it
+                b = ObjV('bytes', {}, name=repr(c))
+                b.value = c
+                return b
             raise Unsupported('constant %r' % (c,))
         if isinstance(node, ast.Name):
             if node.id in env:
